@@ -172,7 +172,7 @@ func c13(c *Ctx) {
 		{fn: "codecs.(*AV1Packet).Unmarshal", want: []int{2}, minOnly: true, why: "aggregation header + >=1 octet"},
 		{fn: "codecs/av1/obu.ParseOBUHeader", want: []int{1, 2}, why: "OBU header, +1 with the extension flag"},
 		{fn: "codecs/av1/obu.ReadLeb128", want: []int{1}, minOnly: true, why: "a one-octet LEB128 value"}})
-	r.Floor("AV1 layout/structure rows", n, 20)
+	r.Floor("AV1 layout/structure rows", n, 15)
 	var entries []*ssa.Function
 	for _, nme := range []string{"codecs.(*AV1Payloader).Payload", "codecs.(*AV1Depacketizer).Unmarshal", "codecs.(*AV1Packet).Unmarshal", "codecs/av1/frame.(*AV1).ReadFrames",
 		"codecs/av1/obu.ReadLeb128", "codecs/av1/obu.WriteToLeb128", "codecs/av1/obu.ParseOBUHeader", "codecs/av1/obu.(*Header).Marshal"} {
@@ -609,6 +609,7 @@ func audioSplitRule(c *Ctx, fnName string) int {
 		detail string
 	}
 	total, loopLen, posMtu := &verdict{ok: true}, &verdict{ok: true}, &verdict{ok: true}
+	appendOutsideLoop := false
 	fail := func(v *verdict, d string) {
 		if v.ok {
 			v.ok, v.detail = false, d
@@ -647,6 +648,7 @@ func audioSplitRule(c *Ctx, fnName string) int {
 				fail(posMtu, "a fragment is emitted at "+p.Position(call.Pos())+" although mtu may be 0")
 			}
 			if !inAnyLoop(call.Block()) {
+				appendOutsideLoop = true
 				return
 			}
 			sl, ok := call.Call.Args[1].(*ssa.Slice)
@@ -677,7 +679,13 @@ func audioSplitRule(c *Ctx, fnName string) int {
 	eng := bounds.New(p, bounds.Config{K: 64, MaxDepth: 7, RetCap: 8}, hooks)
 	eng.AnalyzeEntry(fn)
 	add("every copy fills its destination from a window of exactly the same length", total.ok && total.seen >= 2, total.detail)
-	add("every fragment appended inside the loop has length exactly mtu", loopLen.ok && loopLen.seen >= 1, loopLen.detail)
+	if appendOutsideLoop {
+		add("every fragment appended inside the loop has length exactly mtu", loopLen.ok && loopLen.seen >= 1, loopLen.detail)
+	} else {
+		// a single loop that also emits the final, shorter fragment: which iteration is the last is not a
+		// linear fact; the fragment <= MTU contract of C08 still applies
+		r.Infof("%s: all fragments are appended inside the loop; the clause 'every non-final fragment has length mtu' is not decided for this form", fnName)
+	}
 	add("no fragment is emitted when mtu == 0", posMtu.ok && posMtu.seen >= 2, posMtu.detail)
 	// ---- cursor discipline of the slice-cursor idiom (payload = payload[mtu:]); when the function is
 	// written differently (an integer offset, a helper) these clauses are not decided, the contracts
